@@ -44,7 +44,7 @@ Section Move.
     forall n, In n (h_file h :: h_listed h) ->
       fs_get (dest, n) (fs x') = fs_get (h_dir h, n) (fs x) /\ fs_get (h_dir h, n) (fs x) <> None /\ fs_get (h_dir h, n) (fs x') = None.
   Proof.
-    intros Hd ND Hnot. unfold do_move, transfer. destruct (negb (forallb plain (h_listed h))); [discriminate|].
+    intros Hd ND Hnot. unfold do_move, transfer. destruct (negb (listed_ok h)); [discriminate|].
     destruct (each rename_file (h_dir h) dest (h_listed h) x) as [x1 ok1] eqn:EA. destruct ok1; [|discriminate].
     intros C n Hn. destruct (rename_success _ _ _ _ C (entry_neq_fst _ _ _ _ Hd)) as (G&NE&Gone).
     assert (F1 : forall d, fs_get (d, h_file h) (fs x1) = fs_get (d, h_file h) (fs x)).
@@ -76,7 +76,7 @@ Section Move.
     intros M H1 H2. destruct e as [d m]. cbn [fst] in H1, H2.
     assert (Ne : forall n, entry_eqb (h_dir h, n) (d, m) = false /\ entry_eqb (dest, n) (d, m) = false).
     { intros n. split; apply entry_neq_fst; congruence. }
-    unfold do_move, transfer in M. destruct (negb (forallb plain (h_listed h))); [inversion M; now subst|].
+    unfold do_move, transfer in M. destruct (negb (listed_ok h)); [inversion M; now subst|].
     destruct (each rename_file (h_dir h) dest (h_listed h) x) as [x1 ok1] eqn:EA.
     assert (F1 : fs_get (d, m) (fs x1) = fs_get (d, m) (fs x)) by (apply (each_rename_frame fault _ _ _ _ _ _ _ EA); intros n _; apply Ne).
     destruct ok1; [|inversion M; now subst]. rewrite <- F1. destruct (Ne (h_file h)) as [A B].
